@@ -738,10 +738,19 @@ def parse_path_direct(a):
     return None
 
 
-def cmp_live(kind):
-    def f(a):
-        return live_coin(a[0])
-    return f
+def show_path_impl(a):
+    from bip_utils import Bip32Path
+    return Bip32Path(list(a[1]), bool(a[0])).ToStr()
+
+
+def show_path_direct(a):
+    """Parse(ToStr(path)) gives the path back (all legal indices), and ToStr is the canonical spelling."""
+    s = show_path_impl(a)
+    p = Bip32PathParser.Parse(s)
+    if p.IsAbsolute() != bool(a[0]) or [int(x) for x in p.ToList()] != list(a[1]):
+        return "Parse(ToStr(%r, abs=%r)) = (%r, %r)" % (a[1], a[0], p.IsAbsolute(), p.ToList())
+    exp = "/".join((["m"] if a[0] else []) + [("%d'" % (i - HARD)) if i >= HARD else str(i) for i in a[1]])
+    return None if s == exp else "ToStr = %r, canonical spelling %r" % (s, exp)
 
 
 FUNCS = {
@@ -767,6 +776,8 @@ FUNCS = {
                     impl=lambda a: py_cc_param_ok(a[0], a[1]), doc="the rule on synthetic parameters"),
     "full_path": Func(model=lambda m, a: m.call("full_path", a[0]), impl=full_path_impl, direct=full_path_direct),
     "parse_path": Func(model=lambda m, a: m.call("parse_path", a[0]), impl=parse_path_impl, direct=parse_path_direct),
+    "show_path": Func(model=lambda m, a: m.call("show_path", int(a[0]), list(a[1])), impl=show_path_impl,
+                      direct=show_path_direct),
     "aliases": Func(model=lambda m, a: m.call("enum_aliases"), impl=aliases_impl),
     "alias_pair": Func(direct=aliases_direct),
     "conf_alias": Func(direct=conf_alias_direct),
@@ -889,6 +900,13 @@ def generate(ctx):
             # keep only mutants on which the strict grammar and the library's wider grammar cannot differ
             if ok or not any(c in t for c in " \t"):
                 ctx.run("parse_path", [t], "mutated")
+    for p in [[], [0], [HARD], [HARD - 1], [2 * HARD - 1], [44 + HARD, HARD, HARD, 0, 0], [10, 100, 1000, 10 ** 9]]:
+        for ab in (0, 1):
+            ctx.run("show_path", [ab, p], "directed", trivial=(p == [] and ab == 0))
+    for _ in range(ctx.n(100, 1000)):
+        p = [rng.choice([0, 1, 9, 10, 99, 100, HARD - 1, HARD, HARD + 1, 2 * HARD - 1, rng.randrange(2 * HARD),
+                         10 ** rng.randrange(10)]) for _ in range(rng.randrange(0, 7))]
+        ctx.run("show_path", [rng.randrange(2), p], "rand")
     # 4. end to end: every member x seeds x toggle variants
     sd = seeds(rng, ctx.n(3, 25))
     done = 0
